@@ -43,6 +43,24 @@ Section C08.
     IsoFrame A B p m A' -> forall q, get_node A (fst q) <> None -> Permutation (linked_in A' q) (linked_in A q).
   Proof. exact insert_linked_in_frame. Qed.
 
+  (* the very predicate the monitor evaluates on the implementation's observations (spec/InsertS.v,
+     insert_spec_b = mapping bijective and fresh && every node of B has its image && links && frame) holds of
+     the model's result, read through the abstraction [abs] *)
+  Theorem C08_model_satisfies_the_monitored_spec :
+    forall (op_eqb : Op -> Op -> bool) (meta_eqb : Meta -> Meta -> bool),
+    (forall o, op_eqb o o = true) -> (forall x, meta_eqb x x = true) ->
+    forall (A B A' : hugr) p m, Inv A -> Inv B -> get_node A p <> None -> IsoFrame A B p m A' ->
+    insert_spec_b op_eqb meta_eqb (abs A) (abs B) (abs A') m p false [] = true.
+  Proof. exact insert_satisfies_monitored_spec. Qed.
+
+  (* and it is the insertion of the sequential specification of C04 (disjoint union along the mapping) *)
+  Theorem C08_insert_refines_the_sequential_spec : forall (A B : hugr) gA gB (parent : option nid),
+    let p := match parent with Some x => x | None => root A end in
+    Inv A -> Inv B -> WF B -> Rep A gA -> Rep B gB -> get_node A p <> None ->
+    exists A' m, insert_hugr A B parent = (A', m, Ok) /\ Inv A' /\
+                 mapping_ok gA gB m = true /\ Rep A' (s_insert gA gB m p).
+  Proof. exact insert_rep. Qed.
+
   (* the result can be inserted again / inserted into: well-foundedness is kept *)
   Theorem C08_insert_keeps_wf : forall (A B : hugr) p m A', Inv A -> Inv B -> get_node A p <> None -> WF A -> WF B ->
     IsoFrame A B p m A' -> WF A'.
@@ -86,6 +104,8 @@ Print Assumptions C08_insert_linked_ports_out_iso.
 Print Assumptions C08_insert_linked_ports_in_iso.
 Print Assumptions C08_insert_linked_ports_out_frame.
 Print Assumptions C08_insert_linked_ports_in_frame.
+Print Assumptions C08_model_satisfies_the_monitored_spec.
+Print Assumptions C08_insert_refines_the_sequential_spec.
 Print Assumptions C08_insert_keeps_wf.
 Print Assumptions C08_sources_satisfy_the_hypotheses.
 Print Assumptions C08_step_inside_guard_returns.
